@@ -29,14 +29,27 @@ struct Case {
 }
 
 fn trace_of(c: &Case) -> String {
-    format!("{}|{}|{}|{}|{}", c.cfg.name(), if c.nts { "nts" } else { "plain" }, if c.poll_max { "max" } else { "min" }, c.fill, c.len)
+    format!(
+        "{}|{}|{}|{}|{}",
+        c.cfg.name(),
+        if c.nts { "nts" } else { "plain" },
+        if c.poll_max { "max" } else { "min" },
+        c.fill,
+        c.len
+    )
 }
 fn parse_case(t: &str) -> Option<Case> {
     let p: Vec<&str> = t.split('|').collect();
     if p.len() != 5 {
         return None;
     }
-    Some(Case { cfg: Cfg::parse(p[0])?, nts: p[1] == "nts", poll_max: p[2] == "max", fill: p[3].parse().ok()?, len: p[4].parse().ok()? })
+    Some(Case {
+        cfg: Cfg::parse(p[0])?,
+        nts: p[1] == "nts",
+        poll_max: p[2] == "max",
+        fill: p[3].parse().ok()?,
+        len: p[4].parse().ok()?,
+    })
 }
 
 fn cookie_of(len: usize) -> Vec<u8> {
@@ -72,33 +85,67 @@ fn run_case(c: &Case) -> Res {
             Out::Panic(e) => Res::Bad("C14:panic".into(), format!("handle_timer panicked: {e}")),
             Out::Reset => {
                 if !c.nts {
-                    return Res::Bad("C14:unexpected-action".into(), "a non-NTS source asked for a reset on its first poll".into());
+                    return Res::Bad(
+                        "C14:unexpected-action".into(),
+                        "a non-NTS source asked for a reset on its first poll".into(),
+                    );
                 }
                 Res::Reset
             }
-            Out::Demobilize => Res::Bad("C14:unexpected-action".into(), "Demobilize from handle_timer on a fresh source".into()),
-            Out::Other(s) => Res::Bad("C14:unexpected-action".into(), format!("unexpected action list {s}")),
+            Out::Demobilize => Res::Bad(
+                "C14:unexpected-action".into(),
+                "Demobilize from handle_timer on a fresh source".into(),
+            ),
+            Out::Other(s) => Res::Bad(
+                "C14:unexpected-action".into(),
+                format!("unexpected action list {s}"),
+            ),
             Out::Send(b, timer) => {
                 if c.nts && c.fill == 0 {
-                    return Res::Bad("C14:malformed-request".into(), "request sent without holding a cookie".into());
+                    return Res::Bad(
+                        "C14:malformed-request".into(),
+                        "request sent without holding a cookie".into(),
+                    );
                 }
                 if b.len() > 1024 {
-                    return Res::Bad("C14:oversize".into(), format!("request of {} bytes", b.len()));
+                    return Res::Bad(
+                        "C14:oversize".into(),
+                        format!("request of {} bytes", b.len()),
+                    );
                 }
                 if let Err(e) = well_formed(&rig, c, &b, desired, &cookie) {
                     return Res::Bad("C14:malformed-request".into(), e);
                 }
                 let secs = timer.as_secs_f64() / (1u64 << desired.as_log()) as f64;
                 if !(1.0..=1.06).contains(&secs) {
-                    return Res::Bad("C14:malformed-request".into(), format!("timer {timer:?} for poll exponent {}", desired.as_log()));
+                    return Res::Bad(
+                        "C14:malformed-request".into(),
+                        format!("timer {timer:?} for poll exponent {}", desired.as_log()),
+                    );
                 }
                 // second opinions: crate decoder and the real server
-                let dec = if c.nts { NtpPacket::deserialize(&b, rig.c2s.as_ref()).is_ok() } else { NtpPacket::deserialize(&b, &crate::packet::NoCipher).is_ok() };
+                let dec = if c.nts {
+                    NtpPacket::deserialize(&b, rig.c2s.as_ref()).is_ok()
+                } else {
+                    NtpPacket::deserialize(&b, &crate::packet::NoCipher).is_ok()
+                };
                 if !dec {
-                    return Res::Bad("C14:machinery".into(), "harness walker accepts the request but the crate's decoder rejects it".into());
+                    return Res::Bad(
+                        "C14:machinery".into(),
+                        "harness walker accepts the request but the crate's decoder rejects it"
+                            .into(),
+                    );
                 }
-                if rig.exchanges.last().and_then(|x| x.genuine.as_ref()).is_none() {
-                    return Res::Bad("C14:machinery".into(), "the real server ignored the request".into());
+                if rig
+                    .exchanges
+                    .last()
+                    .and_then(|x| x.genuine.as_ref())
+                    .is_none()
+                {
+                    return Res::Bad(
+                        "C14:machinery".into(),
+                        "the real server ignored the request".into(),
+                    );
                 }
                 Res::Send(b.len())
             }
@@ -106,7 +153,13 @@ fn run_case(c: &Case) -> Res {
     })
 }
 
-fn well_formed(rig: &Rig, c: &Case, b: &[u8], desired: PollInterval, cookie: &[u8]) -> Result<(), String> {
+fn well_formed(
+    rig: &Rig,
+    c: &Case,
+    b: &[u8],
+    desired: PollInterval,
+    cookie: &[u8],
+) -> Result<(), String> {
     if b.len() < 48 {
         return Err(format!("{} bytes", b.len()));
     }
@@ -115,14 +168,23 @@ fn well_formed(rig: &Rig, c: &Case, b: &[u8], desired: PollInterval, cookie: &[u
     // which of the two framings is used is a matter of version negotiation (C12), e.g. a
     // fresh `UpgradedToV5` source falls back to NTPv4 before its first poll
     if !(vn == 4 || vn == 5) || mode != 3 {
-        return Err(format!("version {vn} mode {mode}, expected a version 4 or 5 client request"));
+        return Err(format!(
+            "version {vn} mode {mode}, expected a version 4 or 5 client request"
+        ));
     }
     if b[2] != desired.as_byte() {
-        return Err(format!("poll byte {} but the poll interval is {}", b[2], desired.as_byte()));
+        return Err(format!(
+            "poll byte {} but the poll interval is {}",
+            b[2],
+            desired.as_byte()
+        ));
     }
     let (fields, end) = walk(b, 48);
     if end != b.len() {
-        return Err(format!("extension fields stop at {end}, datagram has {} bytes", b.len()));
+        return Err(format!(
+            "extension fields stop at {end}, datagram has {} bytes",
+            b.len()
+        ));
     }
     if !c.nts {
         if fields.iter().any(|f| f.ty == T_COOKIE || f.ty == T_AUTH) {
@@ -135,16 +197,25 @@ fn well_formed(rig: &Rig, c: &Case, b: &[u8], desired: PollInterval, cookie: &[u
         return Err(format!("{} cookie fields", ck.len()));
     }
     let body = &ck[0].body;
-    if body.len() < cookie.len() || &body[..cookie.len()] != cookie || body[cookie.len()..].iter().any(|x| *x != 0) {
+    if body.len() < cookie.len()
+        || &body[..cookie.len()] != cookie
+        || body[cookie.len()..].iter().any(|x| *x != 0)
+    {
         return Err("cookie field does not carry the cookie".into());
     }
-    let auth = fields.iter().find(|f| f.ty == T_AUTH).ok_or("no authenticator")?;
+    let auth = fields
+        .iter()
+        .find(|f| f.ty == T_AUTH)
+        .ok_or("no authenticator")?;
     if open_at(&*rig.c2s, b, auth.off).is_none() {
         return Err("authenticator does not verify under C2S".into());
     }
     let ph = fields.iter().filter(|f| f.ty == T_PLACEHOLDER).count();
     if ph + 1 > 8usize.saturating_sub(c.fill - 1) {
-        return Err(format!("{ph} placeholders with {} cookies held", c.fill - 1));
+        return Err(format!(
+            "{ph} placeholders with {} cookies held",
+            c.fill - 1
+        ));
     }
     Ok(())
 }
@@ -152,7 +223,12 @@ fn well_formed(rig: &Rig, c: &Case, b: &[u8], desired: PollInterval, cookie: &[u
 fn all_cfgs() -> Vec<Cfg> {
     let mut v = Vec::new();
     for k512 in [false, true] {
-        for pv in [ProtocolVersion::V4, ProtocolVersion::v4_upgrading_to_v5_with_default_tries(), ProtocolVersion::UpgradedToV5, ProtocolVersion::V5] {
+        for pv in [
+            ProtocolVersion::V4,
+            ProtocolVersion::v4_upgrading_to_v5_with_default_tries(),
+            ProtocolVersion::UpgradedToV5,
+            ProtocolVersion::V5,
+        ] {
             v.push(Cfg { pv, k512 });
         }
     }
@@ -160,7 +236,9 @@ fn all_cfgs() -> Vec<Cfg> {
 }
 
 fn replay(ctx: &Ctx, trace: &str) -> String {
-    let Some(c) = parse_case(trace) else { return "bad trace".into() };
+    let Some(c) = parse_case(trace) else {
+        return "bad trace".into();
+    };
     let r = run_case(&c);
     if let Res::Bad(class, what) = &r {
         ctx.violation(class, what.clone(), trace.to_string());
@@ -190,7 +268,13 @@ fn check() {
         for poll_max in [false, true] {
             for fill in 0..=8usize {
                 for len in 0..=1024usize {
-                    cases.push(Case { cfg, nts: true, poll_max, fill, len });
+                    cases.push(Case {
+                        cfg,
+                        nts: true,
+                        poll_max,
+                        fill,
+                        len,
+                    });
                 }
             }
         }
@@ -198,15 +282,31 @@ fn check() {
     let exhaustive_n = cases.len();
     for cfg in all_cfgs().into_iter().filter(|c| !c.k512) {
         for poll_max in [false, true] {
-            cases.push(Case { cfg, nts: false, poll_max, fill: 0, len: 0 });
+            cases.push(Case {
+                cfg,
+                nts: false,
+                poll_max,
+                fill: 0,
+                len: 0,
+            });
         }
     }
     let core_n = cases.len();
-    let extra: Vec<usize> = (1025..=1100).chain([2048, 4096]).chain(65531..=65540).chain([70000]).collect();
+    let extra: Vec<usize> = (1025..=1100)
+        .chain([2048, 4096])
+        .chain(65531..=65540)
+        .chain([70000])
+        .collect();
     for cfg in all_cfgs() {
         for fill in [1usize, 8] {
             for len in &extra {
-                cases.push(Case { cfg, nts: true, poll_max: false, fill, len: *len });
+                cases.push(Case {
+                    cfg,
+                    nts: true,
+                    poll_max: false,
+                    fill,
+                    len: *len,
+                });
             }
         }
     }
@@ -230,7 +330,16 @@ fn check() {
                     s.2 += 1;
                     s.4 = s.4.min(c.len);
                     // header 48 + uid 36 + cookie field + authenticator 40 (+ v5 draft id 28 and reference id request 20)
-                    let one = 48 + 36 + 4 + pad4(c.len) + 40 + if c.cfg.v5() && c.cfg.pv != ProtocolVersion::UpgradedToV5 { 48 } else { 0 };
+                    let one = 48
+                        + 36
+                        + 4
+                        + pad4(c.len)
+                        + 40
+                        + if c.cfg.v5() && c.cfg.pv != ProtocolVersion::UpgradedToV5 {
+                            48
+                        } else {
+                            0
+                        };
                     if one <= 1024 {
                         s.6 += 1;
                     }
@@ -260,7 +369,10 @@ fn check() {
     ctx.set("outcome_reset", s.1);
     ctx.set("outcome_reset_with_cookies_held", s.2);
     ctx.set("largest_request_bytes", s.3 as u64);
-    ctx.set("shortest_cookie_causing_reset", if s.4 == usize::MAX { 0 } else { s.4 as u64 });
+    ctx.set(
+        "shortest_cookie_causing_reset",
+        if s.4 == usize::MAX { 0 } else { s.4 as u64 },
+    );
     ctx.set("longest_cookie_sent", s.5 as u64);
     ctx.set("resets_although_single_cookie_request_fits", s.6);
     ctx.exhaustive(true);
